@@ -252,7 +252,7 @@ func checkNested(buf []byte, start, o int, m *sipsp.PSIPMsg) string {
 
 func (g *Gen) genC05() {
 	// the bounded-exhaustive message texts under the containment oracle (one call)
-	for _, s := range exhSpecs(g.budget(0, 1), "msg") {
+	for _, s := range exhSpecs(0, g.tier == "thorough", "msg") {
 		f := strings.Fields(s.hd)
 		if f[0] != "msg" {
 			continue
